@@ -137,6 +137,12 @@ def _is_len_of(t, pname):
 def len_at_least(lits, pname, k):
     """Do the literals imply len(param) >= k ?"""
     for atom, pol in lits:
+        if atom[0] == "atom" and atom[1] == "term" and not pol and k <= 1:
+            t = atom[2]
+            if t.op == "call" and B.cname(t) in ("slice::<impl [T]>::is_empty", "Vec::<T, A>::is_empty") and len(t.a[1]) == 1:
+                x = B.peel(t.a[1][0])
+                if x.op == "param" and x.a[1] == pname:
+                    return True
         if atom[0] != "atom" or atom[1] != "cmp":
             continue
         op, a, b = atom[2], atom[3], atom[4]
